@@ -363,6 +363,8 @@ class Verifier(Engine):
                             r = root(e)
                             if r:
                                 out.add(r)
+            elif isinstance(node, ast.NamedExpr):
+                out.add(node.target.id)
             elif isinstance(node, ast.For):
                 for e in (node.target.elts if isinstance(node.target, ast.Tuple) else [node.target]):
                     if isinstance(e, ast.Name):
@@ -539,6 +541,7 @@ class Verifier(Engine):
         mod = self.assigned_names(s.body)
         heapmod = self.written_heap(s.body)
         it = st.fork()
+        mod = mod | {x.target.id for x in ast.walk(s.test) if isinstance(x, ast.NamedExpr)}
         self.havoc(it, mod, heapmod)
         for lab, txt in spec.invariants.items():
             it.pc.append(self.clause(txt, it))
